@@ -2080,7 +2080,7 @@ def ob_multi_job_scan(ctx, k):
 # ---------------------------------------------------------------------------------------------------------------------
 # end-to-end: the real evaluator over the real time-window constraint and the real schedule update (shadow tour)
 
-def ob_insertion_e2e(ctx, k, n_tasks, closed=True, bits=16):
+def ob_insertion_e2e(ctx, k, n_tasks, closed=True, bits=16, n_tw=1):
     """C06 end to end, incl. multi-task jobs: `eval_single` / `eval_multi` (real MIR) where `GoalContext::evaluate` is the
     real `TransportConstraint::evaluate_activity` and `GoalContext::accept_route_state` is the real `update_route_schedule`
     (so the shadow tour of a multi job carries exactly the state the real code computes - or fails to compute), the cost
@@ -2089,9 +2089,9 @@ def ob_insertion_e2e(ctx, k, n_tasks, closed=True, bits=16):
     order, is feasible for the independent forward simulation; for a single-task job additionally Failure => no leg is
     feasible.  (Failure of a multi-task job may miss feasible combinations: greedy by design, not claimed.)"""
     from symex import DynV
-    name = f'insertion_e2e[k={k},{"closed" if closed else "open"},tasks={n_tasks}]'
+    name = f'insertion_e2e[k={k},{"closed" if closed else "open"},tasks={n_tasks}{",tw=" + str(n_tw) if n_tw > 1 else ""}]'
     res = Result(name)
-    res.bounds = (f'tour of {k} jobs ({"closed" if closed else "open"}); job with {n_tasks} task(s) (one place, one symbolic window each) in fixed order; '
+    res.bounds = (f'tour of {k} jobs ({"closed" if closed else "open"}); job with {n_tasks} task(s) (one place, {n_tw} symbolic window(s) each) in fixed order; '
                   f'times integer-valued in [0,2^{bits}] (window ends may be Float::MAX); routing uninterpreted in [0,2^{bits}]; exhaustive legs; '
                   f'symbolic cost per candidate')
     t0 = time.time()
@@ -2138,13 +2138,18 @@ def ob_insertion_e2e(ctx, k, n_tasks, closed=True, bits=16):
         env.n_cost = 0
         spec = TourSpec(env, k, closed)
         tasks = [spec.sym_job(f'task{i}') for i in range(n_tasks)]
+        for i, t in enumerate(tasks):
+            # alternative windows of the same place
+            t['windows'] = [(t['tws'], t['twe'])] + [(env.sym_f(f'task{i}_tws{w}'), env.sym_f_or_max(f'task{i}_twe{w}')) for w in range(1, n_tw)]
+            for (a, b) in t['windows'][1:]:
+                env.assumptions.append(z3.Or(b.m, a.v <= b.v))
         holder['spec'], holder['tasks'] = spec, tasks
         rc = spec.build()
         rc = run_update(ctx, env, eng, st, rc)
         singles = []
         for t in tasks:
             place = env.struct('jobs::Place', location=mk_option(True, t['loc'], ty='Option<usize>'), duration=t['dur'],
-                               times=VecV([EnumV('domain::TimeSpan', 0, {0: [env.time_window(t['tws'], t['twe'])]})]))
+                               times=VecV([EnumV('domain::TimeSpan', 0, {0: [env.time_window(a, b)]}) for a, b in t['windows']]))
             singles.append(ArcV(Cell(env.struct('jobs::Single', places=VecV([place]), dimens=StateV()))))
         env.services = [s.cell for s in singles]
         st.user_services = list(env.services)
@@ -2174,7 +2179,10 @@ def ob_insertion_e2e(ctx, k, n_tasks, closed=True, bits=16):
 
     def case_of(model, spec, tasks):
         def job(j):
-            return {'loc': _ev_int(model, j['loc'].t), 'dur': _ev_f(model, j['dur']), 'tws': _ev_f(model, j['tws']), 'twe': _ev_f(model, j['twe'])}
+            d = {'loc': _ev_int(model, j['loc'].t), 'dur': _ev_f(model, j['dur']), 'tws': _ev_f(model, j['tws']), 'twe': _ev_f(model, j['twe'])}
+            if len(j.get('windows', [])) > 1:
+                d['windows'] = [[_ev_f(model, a), _ev_f(model, b)] for a, b in j['windows']]
+            return d
         return make_case('insertion_e2e', env, spec, model, extra={'tasks': [job(t) for t in tasks]})
 
     for st, out in paths:
@@ -2194,10 +2202,17 @@ def ob_insertion_e2e(ctx, k, n_tasks, closed=True, bits=16):
                 res.status, res.detail = 'inconclusive', f'success with {len(acts)} activities for {n_tasks} tasks (structural; no replay)'
                 break
             placed = []
+            used = []
+            member = []
             for x in acts:
                 a, idx = x.fields[0], x.fields[1]
                 cell = env.field(a, 'route::Activity', 'job').payload[1][0].cell
-                placed.append((st.user_services.index(cell), idx))
+                ti = st.user_services.index(cell)
+                placed.append((ti, idx))
+                # the activity that is returned (and would be inserted) carries the chosen window: simulate with THAT window
+                rs, re_ = env.act_field(a, 'place.time.start'), env.act_field(a, 'place.time.end')
+                used.append(dict(tasks[ti], tws=rs, twe=re_) if ti < len(tasks) else None)
+                member.append(z3.Or(*[z3.And(f_eq(rs, wa), f_eq(re_, wb)) for wa, wb in tasks[ti]['windows']]))
             if [p[0] for p in placed] != list(range(n_tasks)):
                 res.status, res.detail = 'inconclusive', f'tasks returned in order {[p[0] for p in placed]} (structural; no replay)'
                 break
@@ -2219,10 +2234,10 @@ def ob_insertion_e2e(ctx, k, n_tasks, closed=True, bits=16):
                 if not ok:
                     continue
                 for t, p in enumerate(seq):
-                    lst.insert(p, tasks[t])
+                    lst.insert(p, used[t])
                 options.append(z3.And(cond, spec.feasible(lst)))
-            claim = z3.Or(*options) if options else z3.BoolVal(False)
-            what = f'{name}: success => the tour with the tasks at the returned positions (job order kept) is feasible'
+            claim = z3.And(z3.Or(*options) if options else z3.BoolVal(False), *member)
+            what = f'{name}: success => the tour with the tasks at the returned positions and windows (job order kept) is feasible'
             saw_ok = saw_ok or witness(ctx, res, env, st, z3.BoolVal(True), assume)
         else:
             if n_tasks > 1:
@@ -2230,8 +2245,8 @@ def ob_insertion_e2e(ctx, k, n_tasks, closed=True, bits=16):
                 if not no_panic(ctx, res, env, st, assume, what=name):
                     break
                 continue
-            claim = z3.And(*[z3.Not(spec.feasible(spec.jobs[:p] + [tasks[0]] + spec.jobs[p:])) for p in range(n_legs)])
-            what = f'{name}: failure => no leg is feasible'
+            claim = z3.And(*[z3.Not(spec.feasible(spec.jobs[:p] + [dict(tasks[0], tws=wa, twe=wb)] + spec.jobs[p:])) for p in range(n_legs) for wa, wb in tasks[0]['windows']])
+            what = f'{name}: failure => no leg is feasible (for any window)'
             saw_fail = saw_fail or witness(ctx, res, env, st, z3.BoolVal(True), assume)
         res.claims += 0
         if not decide_claim(ctx, res, env, st, claim, assume, what=what):
